@@ -204,9 +204,14 @@ func c17sJudge(raw *conformancev1.RawHTTPResponse, obs c17rObs) (out []c17rVerdi
 	if obs.Status != wantStatus {
 		add("reference-server:status", "status %d on the wire, %d specified (0 = 200)", obs.Status, raw.GetStatusCode())
 	}
+	hdrEntries, trlEntries := c17lib.Entries(raw.GetHeaders()), c17lib.Entries(raw.GetTrailers())
 	for name, vals := range rawHeaders {
 		if got := obs.Header.Values(name); !c17lib.EqualStrings(got, vals) {
-			add("reference-server:header-missing-or-wrong", "header %s: got %q, specified %q", name, got, vals)
+			if hdrEntries[name] > 1 {
+				add("reference-server:header-named-in-several-entries", "header %s is named in %d entries of the list: got %q, specified %q (all values, in list order)", name, hdrEntries[name], got, vals)
+			} else {
+				add("reference-server:header-missing-or-wrong", "header %s: got %q, specified %q", name, got, vals)
+			}
 		}
 	}
 	for _, name := range c17sHandlerHeaders {
@@ -238,6 +243,8 @@ func c17sJudge(raw *conformancev1.RawHTTPResponse, obs c17rObs) (out []c17rVerdi
 		case c17lib.EqualStrings(got, vals):
 		case len(rawHeaders[name]) > 0 && c17lib.EqualStrings(got, append(append([]string{}, vals...), rawHeaders[name]...)):
 			add("reference-server:trailer-repeats-header-values", "trailer %s: got %q, specified %q: the values of the response HEADER of the same name were sent again as trailer values", name, got, vals)
+		case trlEntries[name] > 1:
+			add("reference-server:trailer-named-in-several-entries", "trailer %s is named in %d entries of the list: got %q, specified %q (all values, in list order; all trailers received: %v)", name, trlEntries[name], got, vals, obs.Trailer)
 		case len(got) < len(vals):
 			add("reference-server:trailer-missing", "trailer %s: got %q, specified %q (all trailers received: %v)", name, got, vals, obs.Trailer)
 		default:
@@ -303,7 +310,7 @@ func c17sEnumerate(thorough bool, visit func(grid, proto, streamType string, raw
 func TestVerifC17ReferenceServer(t *testing.T) {
 	r := rep.New("c17-refserver")
 	defer r.Write()
-	r.Rule = "case = (protocol h1|h2c) x (stream type unary|client|server|bidi half-duplex, Connect protocol, proto codec) x RawHTTPResponse carried in response_definition.raw_response of the first request message; grid E = status/header/trailer combinations (8 quick, 60 thorough) x medium body set, grid B (thorough) = full body alphabet x one status/header/trailer combination; distinct (proto, stream type, definition) = non-trivial; oracle as in unit c17-rawresp with connect-go's own response (Server/Accept-Encoding/Content-Type headers, 'use raw response instead' error body) as the handler output that must not appear"
+	r.Rule = "case = (protocol h1|h2c) x (stream type unary|client|server|bidi half-duplex, Connect protocol, proto codec) x RawHTTPResponse carried in response_definition.raw_response of the first request message; grid E = status/header/trailer combinations (12 quick, 125 thorough; incl. header and trailer lists that name the same header / trailer in two entries) x medium body set, grid B (thorough) = full body alphabet x one status/header/trailer combination; distinct (proto, stream type, definition) = non-trivial; oracle as in unit c17-rawresp with connect-go's own response (Server/Accept-Encoding/Content-Type headers, 'use raw response instead' error body) as the handler output that must not appear"
 
 	servers := map[string]*c17sServer{}
 	for name, v := range map[string]conformancev1.HTTPVersion{"h1": conformancev1.HTTPVersion_HTTP_VERSION_1, "h2c": conformancev1.HTTPVersion_HTTP_VERSION_2} {
